@@ -65,11 +65,12 @@ func (c amCall) String() string {
 
 // event classes
 const (
-	evMessage = "message"
-	evStopped = "stopped"
-	evCustom  = "custom-error"
-	evTimeout = "timeout"
-	evClosed  = "closed"
+	evMessage  = "message"
+	evStopped  = "stopped"
+	evCustom   = "custom-error"
+	evNilError = "stop-with-nil-error" // StopWithError(id, nil): the event carries what the caller passed, nil included
+	evTimeout  = "timeout"
+	evClosed   = "closed"
 )
 
 // amEvent is an observed or predicted handler event.
@@ -170,6 +171,8 @@ func amEventClass(e stun.Event) string {
 		return evMessage
 	case e.Message != nil:
 		return "message-with-error"
+	case e.Error == nil:
+		return evNilError
 	case errors.Is(e.Error, stun.ErrTransactionStopped):
 		return evStopped
 	case errors.Is(e.Error, errCustomStop):
